@@ -16,6 +16,7 @@ import os
 from vlib.common import CACHE, NCPU, Run, Shard, describe_exc, rng, run_shards
 
 FMT = "%(asctime)s %(name)s %(levelname)s %(message)s"
+STATE = {}
 
 
 class Capture:
@@ -95,7 +96,11 @@ def part_a(sh: Shard, seed, n):
         class F:
             pass
 
-        shell = GeckoShell.__new__(GeckoShell)
+        if i % 7 == 0 or "shell" not in STATE:
+            STATE["shell"] = GeckoShell.__new__(GeckoShell)  # a new shell session
+        else:
+            sh.count("shell_sessions_reused_for_another_spa")
+        shell = STATE["shell"]  # the same session goes on to manage another spa (do_manage)
         shell.facade = F()
         shell.facade.spa = spa
         sh.evaluations += 1
@@ -259,6 +264,47 @@ def part_c(sh: Shard, files):
         sh.see("files", base)
 
 
+def part_c_session(sh: Shard, files, seed):
+    """One simulator session loads the shipped snapshots one after the other (the `load`
+    command): after each load its tables must be those of a fresh simulator loaded with it."""
+    import contextlib
+    import io
+
+    from geckolib.utils.snapshot import GeckoSnapshot
+    from vlib.aworld import quiet_simulator
+
+    r = rng("C19s", seed)
+    snaps = []
+    for fn in files:
+        try:
+            for k, s in enumerate(GeckoSnapshot.parse_log_file(fn)):
+                if s.packtype and len(s.bytes) == 1024:
+                    snaps.append((os.path.basename(fn), k, s))
+        except Exception:
+            pass
+    r.shuffle(snaps)
+    session = quiet_simulator()
+
+    def layout(sim):
+        return {k: (type(a).__name__, a.pos, a.length, a.bitpos, tuple(a.items) if a.items else None) for k, a in sim.structure.accessors.items()}
+
+    for base, k, s in snaps:
+        sh.evaluations += 1
+        with contextlib.redirect_stdout(io.StringIO()):
+            session.set_snapshot(s)
+            fresh = quiet_simulator()
+            fresh.set_snapshot(s)
+        try:
+            same = layout(session) == layout(fresh) and session.structure.status_block == s.bytes and session.config_class.version == fresh.config_class.version and session.log_class.version == fresh.log_class.version and session.pack_type == fresh.pack_type
+        except Exception as e:
+            same = False
+        if not same:
+            sh.violation("C19:c:session-load-differs", f"after loading {base}#{k} into a simulator session that had loaded other snapshots before, its tables differ from a fresh simulator's", {"file": base, "index": k})
+        else:
+            sh.count("session_loads_identical")
+    sh.nontrivial(f"session:{seed}")
+
+
 def main(tier, seed):
     run = Run("C19", tier, seed, "exploration")
     from vlib.aworld import snapshot_dir
@@ -269,9 +315,12 @@ def main(tier, seed):
     res = run_shards("checks.c19", "part_a", [{"seed": seed * 100 + i, "n": n} for i in range(6)], timeout=1800)
     res += run_shards("checks.c19", "part_b", [{"seed": seed * 100 + i, "n": n} for i in range(6)], timeout=1800)
     res += run_shards("checks.c19", "part_c", [{"files": files[i::4]} for i in range(4)], timeout=1800)
+    res += run_shards("checks.c19", "part_c_session", [{"files": files, "seed": seed * 10 + i} for i in range(2 if tier == "quick" else 8)], timeout=1800)
     run.absorb(res)
     run.need(len(run.sets.get("files", set())) == len(files), "not every shipped snapshot file was visited")
     run.need(run.counters.get("snapshots_served_unchanged", 0) >= 30, "too few snapshots served to a client")
+    run.need(run.counters.get("session_loads_identical", 0) >= 30, "simulator session loads not exercised")
+    run.need(run.counters.get("shell_sessions_reused_for_another_spa", 0) > 20, "shell session reuse not exercised")
     run.need(run.counters.get("shell_roundtrips_ok", 0) + run.counters.get("traffic_roundtrips_ok", 0) > 100, "too few round trips")
     run.extra["shipped_files"] = len(files)
     run.sample({"part": "c", "files": [os.path.basename(f) for f in files[:3]]})
